@@ -70,7 +70,8 @@ def laws(tier):
     _S6_UPTO[0] = INFO["bounds"][tier]["s6_upto"]
     W = INFO["bounds"][tier]["max_width"]
     L = []
-    widths = list(range(1, W + 1))
+    # plus the size axis: widths around 2^5, 2^6, 2^7 bytes (256, 512, 1024 bits), pattern inputs only
+    widths = list(range(1, W + 1)) + [31, 32, 33, 40, 64, 65, 128, 129]
     for n in widths:
         for signed in (False, True):
             for swapped in (False, True):
